@@ -1247,6 +1247,13 @@ public:
     else if_constexpr_named(cond2, detail::rlbox_is_tainted_v<T_Rhs>)
     {
       using namespace detail;
+      static_assert(
+        std::is_same_v<T_Sbx, rlbox_get_wrapper_sandbox_t<T_Rhs>>,
+        "Assigning tainted data that belongs to a different sandbox type");
+      static_assert(
+        !(std::is_pointer_v<T> || std::is_pointer_v<rlbox_remove_wrapper_t<T_Rhs>>) ||
+          std::is_assignable_v<T&, rlbox_remove_wrapper_t<T_Rhs>>,
+        "Trying to assign a pointer to a field of an incompatible pointer type");
       convert_type_non_class<T_Sbx,
                              adjust_type_direction::TO_SANDBOX,
                              adjust_type_context::EXAMPLE>(
@@ -1258,6 +1265,13 @@ public:
     else if_constexpr_named(cond3, detail::rlbox_is_tainted_volatile_v<T_Rhs>)
     {
       using namespace detail;
+      static_assert(
+        std::is_same_v<T_Sbx, rlbox_get_wrapper_sandbox_t<T_Rhs>>,
+        "Assigning tainted data that belongs to a different sandbox type");
+      static_assert(
+        !(std::is_pointer_v<T> || std::is_pointer_v<rlbox_remove_wrapper_t<T_Rhs>>) ||
+          std::is_assignable_v<T&, rlbox_remove_wrapper_t<T_Rhs>>,
+        "Trying to assign a pointer to a field of an incompatible pointer type");
       convert_type_non_class<T_Sbx,
                              adjust_type_direction::NO_CHANGE,
                              adjust_type_context::EXAMPLE>(
